@@ -106,7 +106,7 @@ def evaluate(facts, prop):
     und = None
     if c.returncode == 2:
         und = (re.findall(r"cannot decide: (.*)", c.stdout) or ["?"])[0]
-    elif c.returncode not in (0, 1):
+    elif c.returncode not in (0, 1) or (c.returncode == 1 and "VIOLATION property=" not in c.stdout):
         und = "CRASH: " + (c.stderr.strip().splitlines() or ["?"])[-1][:200]
     return fired, und
 
@@ -156,6 +156,8 @@ def main():
         und = e.get("undecided", [])
         if e["skip"]:
             st = "skipped"
+        elif any(u.startswith("CRASH") for _, u in und):
+            st = "CRASH"
         elif e["expect"] is None:
             st = "ok" if not fired and not und else "FALSE-ALARM"
         elif e["expect"] == "any":
@@ -171,9 +173,9 @@ def main():
                 hit = any(k.startswith(e["expect"] + "|") for (_, k) in fired)
                 st = "caught" if hit else ("caught-other-rule" if fired else "MISSED")
         summ[st] = summ.get(st, 0) + 1
-        if st in ("FALSE-ALARM", "MISSED"):
+        if st in ("FALSE-ALARM", "MISSED", "CRASH"):
             bad += 1
-        if a.v or st in ("FALSE-ALARM", "MISSED", "skipped", "caught-other-property", "caught-other-rule"):
+        if a.v or st in ("FALSE-ALARM", "MISSED", "CRASH", "skipped", "caught-other-property", "caught-other-rule"):
             print("%-22s %-40s %s" % (st, e["name"], e["skip"] or ""))
             if st != "caught" or a.v:
                 for p, k in fired:
